@@ -592,6 +592,20 @@ func (o *oracles) checkRouting(op *scheduler.VerifOperation, snap *scheduler.Ver
 	if op.Queue.InstanceNamePrefix != prefix || op.Queue.Platform != plat {
 		w.violate("C05/wrong-queue", fmt.Sprintf("operation %s for instance %q platform %s was placed in %v; the longest matching registered prefix is %q", op.Name, op.InstanceName, plat, op.Queue, prefix))
 	}
+	if w.demuxOn {
+		want := w.expectedRouterMarker(op.InstanceName, plat)
+		got := ""
+		if len(op.Invocation) > 0 && strings.Contains(op.Invocation[0], "router:") {
+			got = op.Invocation[0][strings.Index(op.Invocation[0], "router:"):]
+			got = strings.TrimRight(got, "\"}")
+		}
+		if got != want {
+			w.violate("C05/wrong-action-router", fmt.Sprintf("operation %s for instance %q platform %s was routed by %q; the router registered under the longest matching prefix is %q", op.Name, op.InstanceName, plat, got, want))
+		}
+		if want != "" {
+			w.k.Probe("routed_by_registered_router")
+		}
+	}
 	wantSuffix := strings.TrimPrefix(strings.TrimPrefix(op.InstanceName, prefix), "/")
 	if op.InstanceNameSuffix != wantSuffix {
 		w.violate("C05/wrong-instance-name-suffix", fmt.Sprintf("operation %s: instance %q prefix %q, suffix sent to worker is %q", op.Name, op.InstanceName, prefix, op.InstanceNameSuffix))
